@@ -98,7 +98,7 @@ theorem cpl_schemaDocLoop (m : Nat) : ∀ (parts : List (List Tok × List Tok)),
     ∀ (n : Nat) (doc : SchemaDoc) (a : AS) (σ' : Stream), Starts a.σ (parts.flatMap (·.1)) σ' → σ'.head.kind = .eof →
       Fwd (schemaDocLoop m n doc) a (fun d a' => (∃ items : List SItem, d = items.foldl SchemaDoc.add doc ∧
         items.flatMap (fun it => (sItem it).2) = parts.flatMap (·.2) ∧
-        HeadsOf a.σ (items.map fun it => (sItem it).1) ∧ items.length = parts.length) ∧ a'.σ = σ')
+        HeadsOf a.σ (items.map fun it => (sItem it).1) ∧ items.length = parts.length ∧ ∀ it ∈ items, it.enumOK) ∧ a'.σ = σ')
   | [], _ => by
     intro n doc a σ' hs heof
     rw [List.flatMap_nil, Starts.nil_iff] at hs
@@ -110,7 +110,7 @@ theorem cpl_schemaDocLoop (m : Nat) : ∀ (parts : List (List Tok × List Tok)),
       rintro t a1 ⟨rfl, rfl⟩
       refine Fwd.ite_neg (by rw [hs]; simp [heof]) ((Fwd.pure _ _).mono ?_)
       rintro d a' ⟨rfl, rfl⟩
-      exact ⟨⟨[], rfl, rfl, HeadsOf.nil _, rfl⟩, hs⟩
+      exact ⟨⟨[], rfl, rfl, HeadsOf.nil _, rfl, (fun _ h => by cases h)⟩, hs⟩
   | p :: parts, hp => by
     intro n doc a σ' hs heof
     obtain ⟨hokp, hdp⟩ := hp p (by simp)
@@ -135,11 +135,17 @@ theorem cpl_schemaDocLoop (m : Nat) : ∀ (parts : List (List Tok × List Tok)),
       have hcont : ∀ (doc' : SchemaDoc) (a3 : AS), ItemRes doc p.2 a.σ σm doc' a3 →
           Fwd (schemaDocLoop m n doc') a3 (fun d a' => (∃ items : List SItem, d = items.foldl SchemaDoc.add doc ∧
             items.flatMap (fun it => (sItem it).2) = (p :: parts).flatMap (·.2) ∧
-            HeadsOf a.σ (items.map fun it => (sItem it).1) ∧ items.length = (p :: parts).length) ∧ a'.σ = σ') := by
-        rintro doc' a3 ⟨it, rfl, ho, hkey, hσ3⟩
+            HeadsOf a.σ (items.map fun it => (sItem it).1) ∧ items.length = (p :: parts).length ∧ ∀ it ∈ items, it.enumOK) ∧
+            a'.σ = σ') := by
+        rintro doc' a3 ⟨it, rfl, ho, hen, hkey, hσ3⟩
         refine (ih (doc.add it) a3 σ' (by rw [hσ3]; exact hrest) heof).mono ?_
-        rintro d a' ⟨⟨items, e1, e2, e3, e4⟩, e5⟩
-        refine ⟨⟨it :: items, by rw [e1]; rfl, by simp [ho, e2], ?_, by simp [e4]⟩, e5⟩
+        rintro d a' ⟨⟨items, e1, e2, e3, e4, e6⟩, e5⟩
+        refine ⟨⟨it :: items, by rw [e1]; rfl, by simp [ho, e2], ?_, by simp [e4], ?_⟩, e5⟩
+        rotate_left
+        · intro x hx
+          rcases List.mem_cons.1 hx with rfl | hx
+          · exact hen
+          · exact e6 x hx
         rw [List.map_cons]
         rw [hσ3] at e3
         exact HeadsOf.cons_key hkey e3
@@ -154,7 +160,7 @@ theorem cpl_schemaDocLoop (m : Nat) : ∀ (parts : List (List Tok × List Tok)),
           refine Fwd.ite_neg (by decide) (Fwd.ite_pos rfl ?_)
           refine Fwd.bind (cpl_schemaDefinition m desc tds ods tbk obk hokp.right.tail dds dbk a5 σm hst) ?_
           rintro sd a6 ⟨hsd', hkey, hσ6⟩
-          exact hcont _ a6 ⟨.schema sd, rfl, by simp only [sItem]; rw [hsd', hdesc, e2], KeyIn.prefix hpre hkey, hσ6⟩
+          exact hcont _ a6 ⟨.schema sd, rfl, by simp only [sItem]; rw [hsd', hdesc, e2], trivial, KeyIn.prefix hpre hkey, hσ6⟩
         rcases hdef.alt_inv with htd | hdd
         · -- a type definition
           obtain ⟨k, tD, oD, tb, ob, e1, e2, dD, hbody⟩ := inv_typeDefinition htd
@@ -164,8 +170,8 @@ theorem cpl_schemaDocLoop (m : Nat) : ∀ (parts : List (List Tok × List Tok)),
           unfold docDispatch
           refine Fwd.ite_pos (by rw [(keyword_value k).2]; cases k <;> simp) ?_
           refine Fwd.bind (cpl_typeSystemDefinition m desc k tb ob hokp.right.tail hbody a5 σm hst hfolm) ?_
-          rintro df a6 ⟨hd1, hd2, hd3, hkey, hσ6⟩
-          exact hcont _ a6 ⟨.definition df, rfl, by simp only [sItem, printDefinition]; rw [hd1, hd2, hd3, hdesc, e2],
+          rintro df a6 ⟨hd1, hd2, hd3, hen, hkey, hσ6⟩
+          exact hcont _ a6 ⟨.definition df, rfl, by simp only [sItem, printDefinition]; rw [hd1, hd2, hd3, hdesc, e2], hen,
             KeyIn.prefix hpre hkey, hσ6⟩
         · -- a directive definition
           obtain ⟨tD, oD, nm, ta, oa, trep, tl, ol, e1, e2, hrep, dD, da, dl⟩ := inv_directiveDef hdd hokp
@@ -177,7 +183,7 @@ theorem cpl_schemaDocLoop (m : Nat) : ∀ (parts : List (List Tok × List Tok)),
           refine Fwd.bind (cpl_directiveDefinition m desc nm ta oa trep tl ol hokp.right.tail.tail.tail hrep da dl a5 σm hst
             hfolm.2.2.2.2.2.1) ?_
           rintro dd a6 ⟨hdd', hkey, hσ6⟩
-          exact hcont _ a6 ⟨.directive dd, rfl, by simp only [sItem]; rw [hdd', hdesc, e2], KeyIn.prefix hpre hkey, hσ6⟩
+          exact hcont _ a6 ⟨.directive dd, rfl, by simp only [sItem]; rw [hdd', hdesc, e2], trivial, KeyIn.prefix hpre hkey, hσ6⟩
       · -- an extension
         obtain ⟨body, e1⟩ := first_ext hext hokp
         have hb' : Starts a.σ ([] ++ tKw "extend" :: body) σm := by rw [e1] at hb; simpa using hb
@@ -194,14 +200,14 @@ theorem cpl_schemaDocLoop (m : Nat) : ∀ (parts : List (List Tok × List Tok)),
         refine Fwd.bind (Fwd.ite_neg (by simp) (Fwd.pure () a5)) ?_
         rintro _ a6 ⟨_, rfl⟩
         refine Fwd.bind (cpl_typeSystemExtension m doc p.1 p.2 hokp hext a6 σm (by rw [e1]; exact hst) hfolm) ?_
-        rintro doc' a7 ⟨it, h1, h2, hkey, hσ7⟩
-        exact hcont doc' a7 ⟨it, h1, h2, KeyIn.prefix hpre hkey, hσ7⟩
+        rintro doc' a7 ⟨it, h1, h2, hen, hkey, hσ7⟩
+        exact hcont doc' a7 ⟨it, h1, h2, hen, KeyIn.prefix hpre hkey, hσ7⟩
 
 /-! ### the entry point -/
 
 theorem runSchema_complete (src : Nat) (inp : Bytes) (ts o : List Tok) (htok : tokensOf inp = some ts)
     (hd : D (.nt .typeSystemDocument) ts o) :
-    ∃ d, Result.ofRun (runSchema 0 src inp) = .ok d ∧ printSchema d = o ∧ SchemaDoc.nonEmpty d := by
+    ∃ d, Result.ofRun (runSchema 0 src inp) = .ok d ∧ printSchema d = o ∧ SchemaDoc.nonEmpty d ∧ DocAll SItem.enumOK d := by
   have hok := tsOK_of_tokensOf htok
   obtain ⟨parts, hne, rfl, rfl, hp⟩ := hd.nt_inv.plus_parts
   obtain ⟨t, hteof, hst⟩ := starts_of_tokensOf htok
@@ -210,13 +216,14 @@ theorem runSchema_complete (src : Nat) (inp : Bytes) (ts o : List Tok) (htok : t
   have hrun : Fwd (parseSchemaDocument (fuelFor inp)) (abs (PState.init src inp)) (fun d a' =>
       (∃ items : List SItem, d = items.foldl SchemaDoc.add SchemaDoc.empty ∧
         items.flatMap (fun it => (sItem it).2) = parts.flatMap (·.2) ∧
-        HeadsOf (abs (PState.init src inp)).σ (items.map fun it => (sItem it).1) ∧ items.length = parts.length) ∧
+        HeadsOf (abs (PState.init src inp)).σ (items.map fun it => (sItem it).1) ∧ items.length = parts.length ∧
+        ∀ it ∈ items, it.enumOK) ∧
       a'.σ = .eof t) := by
     unfold parseSchemaDocument
     refine Fwd.bind (fwd_peekPos _) ?_
     rintro _ a1 rfl
     exact hloop _ (.eof t) (by simpa [abs_init] using hst) hteof
-  obtain ⟨hl, _, ⟨items, e1, e2, ⟨hs, hsub, hkeys⟩, elen⟩, _⟩ :=
+  obtain ⟨hl, _, ⟨items, e1, e2, ⟨hs, hsub, hkeys⟩, elen, hen⟩, _⟩ :=
     hrun (PState.init src inp) (WF.init src inp) (by simp [dead, PState.init]) rfl (runSchema_oof 0 src inp)
   have hofrun : Result.ofRun (runSchema 0 src inp) = .ok (runSchema 0 src inp).1 := ofRun_ok.2 ⟨live_oof hl, live_err hl, rfl⟩
   have hd0 : (runSchema 0 src inp).1 = items.foldl SchemaDoc.add SchemaDoc.empty := e1
@@ -232,7 +239,9 @@ theorem runSchema_complete (src : Nat) (inp : Bytes) (ts o : List Tok) (htok : t
   have hitems : items ≠ [] := by
     intro h; rw [h] at elen
     exact hne (List.eq_nil_of_length_eq_zero elen.symm)
-  refine ⟨_, hofrun, ?_, ?_⟩
+  refine ⟨_, hofrun, ?_, ?_, ?_⟩
+  rotate_left 2
+  · rw [hd0]; exact (DocAll.foldl items SchemaDoc.empty).2 ⟨DocAll.empty _, hen⟩
   · rw [printSchema_eq, inSourceOrder_sorted hperm (by simpa [List.pairwise_map] using hsorted), ← e2]
     simp [List.flatMap_def, List.map_map, Function.comp_def]
   · rw [nonEmpty_iff_docItems]
@@ -248,9 +257,20 @@ theorem runSchema_complete (src : Nat) (inp : Bytes) (ts o : List Tok) (htok : t
     `inp` with a non-empty document whose unparse is `o` -/
 theorem parseSchema_complete (src : Nat) (b : Bool) (inp : Bytes) (ts o : List Tok) (htok : tokensOf inp = some ts)
     (hd : D (.nt .typeSystemDocument) ts o) :
-    ∃ d, parseSchemaSrc 0 src b inp = .ok d ∧ printSchema d = o ∧ SchemaDoc.nonEmpty d := by
-  obtain ⟨d0, h1, h2, h3⟩ := runSchema_complete src inp ts o htok hd
-  refine ⟨setBuiltIn b d0, parseSchemaSrc_ok.2 ⟨d0, h1, rfl⟩, ?_, ?_⟩
+    ∃ d, parseSchemaSrc 0 src b inp = .ok d ∧ printSchema d = o ∧ SchemaDoc.nonEmpty d ∧ DocAll SItem.enumOK d := by
+  obtain ⟨d0, h1, h2, h3, h4⟩ := runSchema_complete src inp ts o htok hd
+  refine ⟨setBuiltIn b d0, parseSchemaSrc_ok.2 ⟨d0, h1, rfl⟩, ?_, ?_, ?_⟩
+  rotate_left 2
+  · obtain ⟨g1, g2, g3, g4, g5⟩ := h4
+    refine ⟨g1, g2, g3, ?_, ?_⟩
+    · intro x hx
+      simp only [setBuiltIn, List.mem_map] at hx
+      obtain ⟨y, hy, rfl⟩ := hx
+      exact g4 y hy
+    · intro x hx
+      simp only [setBuiltIn, List.mem_map] at hx
+      obtain ⟨y, hy, rfl⟩ := hx
+      exact g5 y hy
   · rw [printSchema_eq, docItems_setBuiltIn, ← printSchema_eq]; exact h2
   · rw [nonEmpty_iff_docItems, docItems_setBuiltIn, ← nonEmpty_iff_docItems]; exact h3
 
